@@ -27,6 +27,7 @@ def schedules(c):
     n = 40 if c.tier == "quick" else 1200
     scheds = gb.restart_catalogue() + gb.catalogue()
     scheds += gb.simulate(c, n, ["A", "B"], 2, 12, 14, True)
+    scheds += gb.uniform(c, n // 2, ["A", "B"], restart=True)
     return scheds
 
 
